@@ -205,7 +205,7 @@ class R:
             # UPDATE tgt SET c1 = 1 FROM <from list> [WHERE ...]
             save = self.pos
             body = self._single_branch()
-            return [self.kw("update")] + tgt + [self.kw("set"), self.ident("c1"), "=", "1", self.kw("from")] + self.from_list(body["from"]) + self.tail(body)
+            return w + [self.kw("update")] + tgt + [self.kw("set"), self.ident("c1"), "=", "1", self.kw("from")] + self.from_list(body["from"]) + self.tail(body)
         if kind == "select_into":
             return w + self.query(into=tgt)
         q = self.query()
@@ -219,10 +219,10 @@ class R:
             return w + q
         if kind == "merge":
             mq = self.ident("mq")
-            return ([self.kw("merge"), self.kw("into")] + tgt + [self.kw("using"), "("] + q + [")", mq, self.kw("on")] + tgt[-1:] + [".", self.ident("c1"), "=", mq, ".", self.ident("c1")]
+            return (w + [self.kw("merge"), self.kw("into")] + tgt + [self.kw("using"), "("] + q + [")", mq, self.kw("on")] + tgt[-1:] + [".", self.ident("c1"), "=", mq, ".", self.ident("c1")]
                     + [self.kw("when"), self.kw("matched"), self.kw("then"), self.kw("update"), self.kw("set"), self.ident("c1"), "=", mq, ".", self.ident("c1")])
         if kind == "delete":
-            return [self.kw("delete"), self.kw("from")] + tgt + [self.kw("where"), self.ident("c1"), self.kw("in"), "("] + q + [")"]
+            return w + [self.kw("delete"), self.kw("from")] + tgt + [self.kw("where"), self.ident("c1"), self.kw("in"), "("] + q + [")"]
         raise ValueError(kind)
 
     def _single_branch(self):
